@@ -47,6 +47,12 @@ META = {
 }
 
 
+# properties whose known findings are matched on the EXACT violation (property, kind, input, observed detail) instead of
+# (property, kind, input): a change that makes a listed input fail differently (e.g. more architectures missing) is reported.
+# Only for checks whose details were verified to be identical across runs and seeds.
+EXACT_PROPS = {'C13', 'C14'}
+
+
 def shared_option(spec):
     opts = [o for _, _, os_ in spec.get('choices', []) for o in os_]
     return len(set(opts)) < len(opts)
@@ -108,7 +114,7 @@ def main(argv):
                 if not v.get('known'):
                     unclassified[prop].append(v)
                 continue
-            groups[fid][prop].add(v['case_sig'])
+            groups[fid][prop].add(v['sig'] if prop in EXACT_PROPS else v['case_sig'])
     for fid in sorted(groups):
         for prop in sorted(groups[fid]):
             print(f'{fid} {prop}: {len(groups[fid][prop])} signatures')
@@ -128,7 +134,7 @@ def main(argv):
             sigs = set(groups[fid][prop])
             if '--merge' in argv and eid in old:
                 sigs |= set(old[eid].get('signatures', []))
-            new.append(dict(id=eid, property=prop, status='known', match='kind', what=META[fid],
+            new.append(dict(id=eid, property=prop, status='known', match='exact' if prop in EXACT_PROPS else 'kind', what=META[fid],
                             signatures=sorted(sigs)))
     if '--merge' in argv:
         have = {e['id'] for e in new}
